@@ -138,6 +138,15 @@ func runSearch(a map[string]string) {
 			if !sk2.IsEqual(s) {
 				emit(viol{"seckey-roundtrip", "Seckey Serialize/Deserialize changed the value " + sk.String(), map[string]string{"line": "skser " + sk.String()}})
 			}
+			// any value a Seckey can hold (unreduced, longer than 32 bytes) comes back
+			bigv := new(big.Int).SetBytes(r.Bytes(r.Pick(1, 31, 32, 33, 40)))
+			sb := seckeyOf(bigv)
+			var sb2 groupsig.Seckey
+			sb2.Deserialize(sb.Serialize())
+			evals++
+			if !sb2.IsEqual(sb) || sb2.GetBigInt().Cmp(bigv) != 0 {
+				emit(viol{"seckey-roundtrip", "Seckey Serialize/Deserialize changed the value " + bigv.String(), map[string]string{"line": "skdes " + hx.Hex(bigv.Bytes())}})
+			}
 			var pk2 groupsig.Pubkey
 			e := pk2.Deserialize(pkb)
 			evals++
